@@ -1,7 +1,9 @@
 (* C15 — LIKE n BUT equals the explicit cell card it abbreviates.
    Only restatements; proofs are in C15/Proofs.v.  The model functions named
-   here (tokenize, parse_kws, parse_one_cell, worker, finish_cell, ...) are the
-   definitions of C15/Model.v that the correspondence check executes. *)
+   here (tokenize, parse_kws, upd, parse_one_cell, parse_all, worker,
+   finish_cell, split_like, search_like, ...) are the definitions of
+   C15/Model.v that the correspondence check executes.  Every statement holds
+   for every scalar type (reals and binary64 alike) and every environment. *)
 From Coq Require Import List NArith ZArith Bool String Ascii Reals.
 From T4V Require Import Base.Str Base.Scalar C15.Model C15.Proofs.
 Import ListNotations.
@@ -17,7 +19,7 @@ Proof. exact tokenize_app. Qed.
 Print Assumptions C15_tokens_of_appended_options.
 
 (* parse_keywords on options ++ overrides: after the options, parsing goes on
-   from the dictionary of the options (any scalar type, binary64 included) *)
+   from the dictionary of the options *)
 Theorem C15_keywords_prefix : forall (T : Type) (SC : Scalar T) (e : env (T:=T))
     (opts ovr : list string) (k1 : kws (T:=T)),
   parse_kws SC e opts = Ok k1 -> kw_head ovr ->
@@ -27,11 +29,12 @@ Print Assumptions C15_keywords_prefix.
 
 (* later keyword wins: for mat, rho, u, fill (universe(s), bounds and
    transformation together), trcl and lat the value of the overrides when they
-   have one, the value of the options otherwise; the importance is the maximum *)
-Theorem C15_keywords_later_wins : forall (e : env (T:=R)) (opts ovr : list string)
-    (k1 k2 : kws (T:=R)),
-  parse_kws RS e opts = Ok k1 -> parse_kws RS e ovr = Ok k2 -> kw_head ovr ->
-  exists k, parse_kws RS e (opts ++ ovr) = Ok k /\
+   have one, the value of the options otherwise; for the importance, particle
+   by particle, the last value written (after fix 0b05eba) *)
+Theorem C15_keywords_later_wins : forall (T : Type) (SC : Scalar T) (e : env (T:=T))
+    (opts ovr : list string) (k1 k2 : kws (T:=T)),
+  parse_kws SC e opts = Ok k1 -> parse_kws SC e ovr = Ok k2 -> kw_head ovr ->
+  exists k, parse_kws SC e (opts ++ ovr) = Ok k /\
     k_mat k = orelse (k_mat k2) (k_mat k1) /\
     k_rho k = orelse (k_rho k2) (k_rho k1) /\
     k_u k = orelse (k_u k2) (k_u k1) /\
@@ -42,32 +45,22 @@ Theorem C15_keywords_later_wins : forall (e : env (T:=R)) (opts ovr : list strin
       | Some _ => (k_fb k2, k_fu k2, k_fp k2)
       | None => (k_fb k1, k_fu k1, k_fp k1)
       end /\
-    k_imp k = match k_imp k2, k_imp k1 with
-              | Some v, Some o => Some (Rmax v o)
-              | Some v, None => Some v
-              | None, x => x
-              end.
-Proof. exact keywords_later_wins_R. Qed.
+    forall p, imp_last (k_impl k) p =
+              match imp_last (k_impl k2) p with Some v => Some v | None => imp_last (k_impl k1) p end.
+Proof. exact @keywords_later_wins_fields. Qed.
 Print Assumptions C15_keywords_later_wins.
 
-(* LIKE_RE (search on the lower-cased geometry text) recognises the text that
-   cellcard.split gives for a card "N LIKE n BUT ...", for every digit string n *)
-Theorem C15_like_re_recognises : forall ds : string,
-  all_digits ds = true -> ds <> EmptyString ->
-  search_like (" like " ++ ds ++ " but") = Some (Z.of_N (parse_digits ds 0%N)).
-Proof. exact like_re_recognises. Qed.
-Print Assumptions C15_like_re_recognises.
-
-(* the same for any scalar type (binary64 included) when the overrides carry
-   no IMP: the dictionary is [upd k1 k2], i.e. the override's mat, rho, u, trcl,
-   lat and fill triple when present, the options' otherwise *)
-Theorem C15_keywords_later_wins_any_scalar : forall (T : Type) (SC : Scalar T) (e : env (T:=T))
-    (opts ovr : list string) (k1 k2 : kws (T:=T)),
-  parse_kws SC e opts = Ok k1 -> parse_kws SC e ovr = Ok k2 -> kw_head ovr ->
-  k_imp k2 = None ->
-  parse_kws SC e (opts ++ ovr) = Ok (upd SC k1 k2).
-Proof. exact @keywords_later_wins_noimp. Qed.
-Print Assumptions C15_keywords_later_wins_any_scalar.
+(* what the IMP entries of a dictionary mean: imp_by_particle[p] is the last
+   value written for p, and the importance of the cell is the maximum (Python's
+   max, in the order of first appearance) of these values *)
+Theorem C15_importance_per_particle : forall (T : Type) (SC : Scalar T) (log : list (string * T)),
+  (forall p, assoc_find (imp_dict log) p = imp_last log p) /\
+  imp_value SC log = match map snd (imp_dict log) with
+                     | [] => None
+                     | v :: r => Some (fold_left (pmax SC) r v)
+                     end.
+Proof. exact @imp_value_dict. Qed.
+Print Assumptions C15_importance_per_particle.
 
 (* cellcard.split on a LIKE card as MIP hands it over (single blanks): name,
    geometry = up to and including BUT, options = the rest — for any case of the
@@ -86,6 +79,12 @@ Theorem C15_split_then_like_re : forall L ds B : string,
   search_like (lower (" " ++ L ++ " " ++ ds ++ " " ++ B)) = Some (Z.of_N (parse_digits ds 0%N)).
 Proof. exact split_then_like_re. Qed.
 Print Assumptions C15_split_then_like_re.
+
+Theorem C15_like_re_recognises : forall ds : string,
+  all_digits ds = true -> ds <> EmptyString ->
+  search_like (" like " ++ ds ++ " but") = Some (Z.of_N (parse_digits ds 0%N)).
+Proof. exact like_re_recognises. Qed.
+Print Assumptions C15_like_re_recognises.
 
 (* the LIKE loop: a LIKE card, at the end of a chain of any length in an acyclic
    table, is parsed as the explicit card "text of the card n stands for, then
@@ -118,8 +117,7 @@ Print Assumptions C15_like_in_parse_all.
    cell numbers whose LIKE chains all end, replacing the card "k LIKE n BUT o" by
    the explicit card "text that n stands for, then o" leaves the result of
    parse_all unchanged — every cell, every error, the cells that are LIKE k
-   included — and the hypotheses survive, so all LIKE cards can be expanded one
-   after the other *)
+   included — and the hypotheses survive ... *)
 Theorem C15_replace_like_card : forall (T : Type) (SC : Scalar T) (e : env (T:=T))
     (pre post : table) (k : Z) (mat0 g0 o : string) (n : Z) (d : nat) (x : card),
   let tbl := (pre ++ (k, (mat0, g0, o)) :: post)%list in
@@ -132,74 +130,75 @@ Theorem C15_replace_like_card : forall (T : Type) (SC : Scalar T) (e : env (T:=T
 Proof. exact @replace_like_card_full. Qed.
 Print Assumptions C15_replace_like_card.
 
-(* its hypotheses on the three-card table of C15_example, card 2 replaced *)
-Example C15_example_replace :
-  let tbl := ([(1%Z, (" 1 -1.0", " -1 ", "imp:n=0"))] ++
-              (2%Z, ("", " like 1 but", " MAT=2 imp:n=1")) ::
-              [(3%Z, ("", " LIKE 2 BUT", " rho = -2.5 *TRCL=( 0 )"))])%list in
-  tbl = xtbl /\ NoDup (map fst tbl) /\ search_like (lower " like 1 but") = Some 1%Z /\
-  denotes tbl 1 0 (" 1 -1.0", " -1 ", "imp:n=0") /\
-  (forall j c, In (j, c) tbl -> exists dj xj, denotes tbl j dj xj).
-Proof. exact example_replace_hyps. Qed.
+(* ... so that every LIKE card can be expanded: there is a table of explicit
+   cards only, with the same cell numbers in the same order, holding for every
+   cell the card it stands for, on which parse_all gives the same result *)
+Theorem C15_expand_all : forall (T : Type) (SC : Scalar T) (e : env (T:=T)) (tbl : table),
+  NoDup (map fst tbl) ->
+  (forall j c, In (j, c) tbl -> exists dj xj, denotes tbl j dj xj) ->
+  exists tbl_e,
+    map fst tbl_e = map fst tbl /\
+    (forall j c, In (j, c) tbl_e -> is_explicit c) /\
+    (forall j dj xj, denotes tbl j dj xj -> lookup j tbl_e = Some xj) /\
+    parse_all SC e tbl_e = parse_all SC e tbl.
+Proof. exact @expand_all_cards. Qed.
+Print Assumptions C15_expand_all.
 
 (* LIKE n BUT o = the cell with the material string and the geometry of the card
    n stands for, and n's keyword dictionary with every parameter listed in o
-   overridden — provided o does not lower an importance written on the
-   inherited cards (see C15_like_imp_refuted) *)
-Theorem C15_like_equals_expanded : forall (e : env (T:=R)) (tbl : table) (fuel rank : nat)
-    (lat : option (list (Z * Z))) (mat0 g0 o : string) (n : Z) (d : nat)
-    (mx gx ox : string) (kb ko : kws (T:=R)),
+   overridden ([upd kb ko], spelt out entry by entry in C15_keywords_later_wins:
+   material, density, universe, fill + transformation, TRCL, LAT, and the
+   importance particle by particle); second conjunct: the card n stands for,
+   parsed on its own, is the same expression with n's own dictionary.  No guard
+   on the importance any more (fix 0b05eba). *)
+Theorem C15_like_equals_expanded : forall (T : Type) (SC : Scalar T) (e : env (T:=T))
+    (tbl : table) (fuel rank : nat) (lat : option (list (Z * Z))) (mat0 g0 o : string)
+    (n : Z) (d : nat) (mx gx ox : string) (kb ko : kws (T:=T)),
   search_like (lower g0) = Some n -> denotes tbl n d (mx, gx, ox) -> (d < fuel)%nat ->
   sq_state false ox = false -> leads_colon o = false -> kw_head (tokenize o) ->
-  parse_kws RS e (tokenize ox) = Ok kb -> parse_kws RS e (tokenize o) = Ok ko ->
-  (forall v w, k_imp ko = Some v -> k_imp kb = Some w -> (w <= v)%R) ->
-  parse_one_cell RS fuel e tbl rank lat (mat0, g0, o) =
+  parse_kws SC e (tokenize ox) = Ok kb -> parse_kws SC e (tokenize o) = Ok ko ->
+  parse_one_cell SC fuel e tbl rank lat (mat0, g0, o) =
   (parse_material e mx >>= fun '(mid, rho) =>
    match getast e gx with
    | None => Err EParse
-   | Some ast => finish_cell e rank lat mid rho ast (override kb ko)
+   | Some ast => finish_cell SC e rank lat mid rho ast (upd kb ko)
    end) /\
-  parse_one_cell RS fuel e tbl rank lat (mx, gx, ox) =
+  parse_one_cell SC fuel e tbl rank lat (mx, gx, ox) =
   (parse_material e mx >>= fun '(mid, rho) =>
    match getast e gx with
    | None => Err EParse
-   | Some ast => finish_cell e rank lat mid rho ast kb
+   | Some ast => finish_cell SC e rank lat mid rho ast kb
    end).
-Proof. exact like_equals_expanded_full. Qed.
+Proof. exact @like_equals_expanded_full. Qed.
 Print Assumptions C15_like_equals_expanded.
 
-(* the unguarded statement is false of the code: BUT IMP:N=0 on a copy of a
-   card that says IMP:N=1 keeps importance 1, the explicit card has 0 *)
-Theorem C15_like_imp_refuted :
-  exists (e : env (T:=R)) (tbl : table) (c_like c_expl : cell (T:=R)),
-    lookup 1%Z tbl = Some (" 1 -1.0", " -1 ", "imp:n=1") /\
-    parse_one_cell RS 2 e tbl 1 None ("", " like 1 but", " imp:n=0") = Ok c_like /\
-    parse_one_cell RS 2 e tbl 1 None (" 1 -1.0", " -1 ", "imp:n=0") = Ok c_expl /\
-    c_imp c_like = 1%R /\ c_imp c_expl = 0%R /\ c_like <> c_expl.
-Proof. exact like_imp_refuted. Qed.
-Print Assumptions C15_like_imp_refuted.
-
-(* BUT MAT=0 (after fix ac9102a): with the hypotheses above and MAT=m in the BUT
-   list, int(m) = 0, the copy is the cell of the explicit void card: material
-   token m, no density, the other keywords (MAT and RHO exist in BUT lists only) *)
-Theorem C15_like_mat_void : forall (e : env (T:=R)) (tbl : table) (fuel rank : nat)
-    (lat : option (list (Z * Z))) (mat0 g0 o : string) (n : Z) (d : nat)
-    (mx gx ox : string) (kb ko : kws (T:=R)) (m : string),
+(* BUT MAT=0 (fix ac9102a): with MAT=m in the BUT list, int(m) = 0, the copy is
+   the cell of the explicit void card: material token m, no density, the other
+   keywords (MAT and RHO exist in BUT lists only) *)
+Theorem C15_like_mat_void : forall (T : Type) (SC : Scalar T) (e : env (T:=T)) (tbl : table)
+    (fuel rank : nat) (lat : option (list (Z * Z))) (mat0 g0 o : string) (n : Z) (d : nat)
+    (mx gx ox : string) (kb ko : kws (T:=T)) (m : string),
   search_like (lower g0) = Some n -> denotes tbl n d (mx, gx, ox) -> (d < fuel)%nat ->
   sq_state false ox = false -> leads_colon o = false -> kw_head (tokenize o) ->
-  parse_kws RS e (tokenize ox) = Ok kb -> parse_kws RS e (tokenize o) = Ok ko ->
-  (forall v w, k_imp ko = Some v -> k_imp kb = Some w -> (w <= v)%R) ->
+  parse_kws SC e (tokenize ox) = Ok kb -> parse_kws SC e (tokenize o) = Ok ko ->
   k_mat ko = Some m -> pyint m = Some 0%Z ->
-  parse_one_cell RS fuel e tbl rank lat (mat0, g0, o) =
+  parse_one_cell SC fuel e tbl rank lat (mat0, g0, o) =
   (parse_material e mx >>= fun _ =>
    match getast e gx with
    | None => Err EParse
-   | Some ast => finish_cell e rank lat m None ast (drop_mat_rho (override kb ko))
+   | Some ast => finish_cell SC e rank lat m None ast (drop_mat_rho (upd kb ko))
    end).
-Proof. exact like_mat_void_R. Qed.
+Proof. exact @like_mat_void. Qed.
 Print Assumptions C15_like_mat_void.
 
-(* ... e.g. "2 like 1 but mat=0" on "1 1 -1.0 -1 imp:n=1" is the card "0 -1 imp:n=1" *)
+(* the two former counter-examples, now equalities: "2 like 1 but imp:n=0" on
+   "1 1 -1.0 -1 imp:n=1 imp:p=0" is the card "1 -1.0 -1 imp:n=0 imp:p=0", and
+   "2 like 1 but mat=0" on "1 1 -1.0 -1 imp:n=1" is the card "0 -1 imp:n=1" *)
+Example C15_example_imp_override :
+  parse_one_cell RS 2 (wenv 0%R 1%R) wtbl 1 None ("", " like 1 but", " imp:n=0") =
+  parse_one_cell RS 2 (wenv 0%R 1%R) wtbl 1 None (" 1 -1.0", " -1 ", "imp:n=0 imp:p=0").
+Proof. exact (witness_like RS 0%R 1%R). Qed.
+
 Example C15_example_void :
   parse_one_cell RS 2 (wenv 0%R 1%R) vtbl 1 None ("", " like 1 but", " mat=0") =
   parse_one_cell RS 2 (wenv 0%R 1%R) vtbl 1 None (" 0", " -1 ", "imp:n=1").
@@ -208,7 +207,7 @@ Proof. exact (witness_void_like RS 0%R 1%R). Qed.
 (* non-vacuity: LIKE 2 BUT RHO *TRCL where 2 is itself LIKE 1 BUT MAT IMP *)
 Example C15_example :
   let e := xenv 0%R 1%R in
-  let kb := x_kb RS 0%R 1%R in
+  let kb := x_kb 0%R 1%R in
   let ko := x_ko 0%R in
   search_like (lower " LIKE 2 BUT") = Some 2%Z /\
   denotes xtbl 2 1 (" 1 -1.0", " -1 ", x_ox) /\
@@ -217,11 +216,20 @@ Example C15_example :
   kw_head (tokenize " rho = -2.5 *TRCL=( 0 )") /\
   parse_kws RS e (tokenize x_ox) = Ok kb /\
   parse_kws RS e (tokenize " rho = -2.5 *TRCL=( 0 )") = Ok ko /\
-  (forall v w, k_imp ko = Some v -> k_imp kb = Some w -> (w <= v)%R) /\
-  k_mat (override kb ko) = Some "2" /\ k_rho (override kb ko) = Some "-2.5" /\
-  k_trcl (override kb ko) = Some [0%R].
+  k_mat (upd kb ko) = Some "2" /\ k_rho (upd kb ko) = Some "-2.5" /\
+  k_trcl (upd kb ko) = Some [0%R] /\ imp_last (k_impl (upd kb ko)) "n" = Some 1%R.
 Proof.
   cbv zeta.
   destruct (example_hyps RS 0%R 1%R) as (H1 & H2 & H3 & H4 & H5 & H6 & H7).
-  repeat split; try assumption. intros v w Hv. discriminate Hv.
+  repeat split; assumption.
 Qed.
+
+(* the hypotheses of C15_replace_like_card / C15_expand_all on the same table *)
+Example C15_example_replace :
+  let tbl := ([(1%Z, (" 1 -1.0", " -1 ", "imp:n=0"))] ++
+              (2%Z, ("", " like 1 but", " MAT=2 imp:n=1")) ::
+              [(3%Z, ("", " LIKE 2 BUT", " rho = -2.5 *TRCL=( 0 )"))])%list in
+  tbl = xtbl /\ NoDup (map fst tbl) /\ search_like (lower " like 1 but") = Some 1%Z /\
+  denotes tbl 1 0 (" 1 -1.0", " -1 ", "imp:n=0") /\
+  (forall j c, In (j, c) tbl -> exists dj xj, denotes tbl j dj xj).
+Proof. exact example_replace_hyps. Qed.
